@@ -1113,4 +1113,59 @@ example : ∃ ops, line "msg:.db \"Hi; there\" , 0 // z".toList =
     (leadOk_string _ _) (hb _ (Or.inr rfl)) (Or.inr ⟨Or.inr rfl, rfl⟩)
   exact ⟨_, this⟩
 
+/-! ### the property's words, for the lines covered -/
+
+/-- **blanks and comments of an instruction line carry no meaning**: two writings of an instruction
+    line with the same operation name (in any letter case... of the same word) and the same
+    operands — whatever the indentation, the blanks after the name, around every comma and at the
+    end, and whatever comment (or none) follows — parse to the same thing -/
+theorem instruction_line_layout_irrelevant
+    (ws1 ws1' n wsA wsA' : Str) (o : Opd) (more more' : List (Str × Str × Opd)) (ws2 ws2' c c' : Str)
+    (hws1 : blanks ws1) (hws1' : blanks ws1') (hn : isName n) (hwsA : blanks wsA) (hwsA' : blanks wsA')
+    (hA : wsA ≠ []) (hA' : wsA' ≠ []) (hg : o.ok) (hm : opdsOk more) (hm' : opdsOk more')
+    (hsame : more.map (fun x => x.2.2.val) = more'.map (fun x => x.2.2.val))
+    (hws2 : blanks ws2) (hws2' : blanks ws2') (hc : lineEnd c) (hc' : lineEnd c') :
+    parseLine (ws1 ++ (n ++ (wsA ++ (o.text ++ (opdTail more ++ (ws2 ++ c)))))) =
+    parseLine (ws1' ++ (n ++ (wsA' ++ (o.text ++ (opdTail more' ++ (ws2' ++ c')))))) := by
+  unfold parseLine
+  rw [operands_instruction_line ws1 n wsA o more ws2 c hws1 hn hwsA hA hg hm hws2 hc,
+      operands_instruction_line ws1' n wsA' o more' ws2' c' hws1' hn hwsA' hA' hg hm' hws2' hc', hsame]
+
+/-- the letter case of the operation name carries no meaning -/
+theorem instruction_line_case_irrelevant
+    (ws1 n n' wsA : Str) (o : Opd) (more : List (Str × Str × Opd)) (ws2 c : Str)
+    (hws1 : blanks ws1) (hn : isName n) (hn' : isName n') (hcase : lower n = lower n') (hwsA : blanks wsA)
+    (hA : wsA ≠ []) (hg : o.ok) (hm : opdsOk more) (hws2 : blanks ws2) (hc : lineEnd c) :
+    parseLine (ws1 ++ (n ++ (wsA ++ (o.text ++ (opdTail more ++ (ws2 ++ c)))))) =
+    parseLine (ws1 ++ (n' ++ (wsA ++ (o.text ++ (opdTail more ++ (ws2 ++ c)))))) := by
+  unfold parseLine
+  rw [operands_instruction_line ws1 n wsA o more ws2 c hws1 hn hwsA hA hg hm hws2 hc,
+      operands_instruction_line ws1 n' wsA o more ws2 c hws1 hn' hwsA hA hg hm hws2 hc, hcase]
+
+/-- the same for directive lines: indentation, blanks after the name, around the commas and at the
+    end, and the comment carry no meaning -/
+theorem directive_line_layout_irrelevant (lab : Option Str) (labText ws1 ws1' name wsA wsA' : Str) (o : Dpd)
+    (more more' : List (Str × Str × Dpd)) (ws2 ws2' c c' : Str)
+    (hlabel : (lab = none ∧ labText = []) ∨ ∃ l, isName l ∧ lab = some (lower l) ∧ labText = l ++ [':'])
+    (hws1 : blanks ws1) (hws1' : blanks ws1') (hname : name ≠ []) (hlow : ∀ ch ∈ name, isLowerAlpha ch = true)
+    (hwsA : blanks wsA) (hwsA' : blanks wsA') (hA : wsA ≠ []) (hA' : wsA' ≠ []) (hg : o.ok)
+    (hm : dpdsOk more) (hm' : dpdsOk more')
+    (hlead : LeadOk (o.text ++ (dpdTail more ++ (ws2 ++ c)))) (hlead' : LeadOk (o.text ++ (dpdTail more' ++ (ws2' ++ c'))))
+    (hsame : more.map (fun x => x.2.2.val) = more'.map (fun x => x.2.2.val))
+    (hws2 : blanks ws2) (hws2' : blanks ws2') (hc : lineEnd c) (hc' : lineEnd c') :
+    parseLine (labText ++ (ws1 ++ ('.' :: (name ++ (wsA ++ (o.text ++ (dpdTail more ++ (ws2 ++ c)))))))) =
+    parseLine (labText ++ (ws1' ++ ('.' :: (name ++ (wsA' ++ (o.text ++ (dpdTail more' ++ (ws2' ++ c')))))))) := by
+  unfold parseLine
+  rw [operands_directive_line lab labText ws1 name wsA o more ws2 c hlabel hws1 hname hlow hwsA hA hg hm hlead hws2 hc,
+      operands_directive_line lab labText ws1' name wsA' o more' ws2' c' hlabel hws1' hname hlow hwsA' hA' hg hm' hlead' hws2' hc', hsame]
+
+/-- an expression operand may be written in any of its `Spaced` ways: other blanks, other
+    parentheses -/
+theorem expression_writing_irrelevant (k k' : Nat) (e : Expr) (s s' : Str) (hsp : Spaced 0 k e s) (hsp' : Spaced 0 k' e s')
+    (rest : Str) (hr : AfterOpd rest) : directiveOp (s ++ rest) = directiveOp (s' ++ rest) := by
+  have h1 := (Dpd.ofExpr_ok k e s hsp).1 rest hr
+  have h2 := (Dpd.ofExpr_ok k' e s' hsp').1 rest hr
+  simp only [Dpd.ofExpr] at h1 h2
+  rw [h1, h2]
+
 end Avra.Props.C14
